@@ -49,6 +49,9 @@ TRUSTED = [
     "live search of the tree; call_algorithm's dispatch over the registry generated from the source; "
     "reconcile's exit status; draw's class choice) and get_species_mapping in Model/Serialize.lean",
     "argparse, json and file I/O are Python's; the TeX measurer is the stub of harness/stubtex.py",
+    "multifurcating inputs: the clauses of check_refined_tree are proved for all trees as the composition "
+    "labelTree . Newick reparse . binarize . labelTree of the models of C12, C08 and C11 "
+    "(Properties/C12Refine.lean: C12_refine_cli_full, C12_refine_input)",
     "C12_cost / C12_superset are compositions: the cost printed is results[0].cost() and C06/C11/C05 "
     "carry the rest; here they are checked on the real runs only",
 ]
